@@ -95,6 +95,57 @@ def _alternation(pattern: str, group: str) -> set[str] | None:
         return None
 
 
+CLEAN_SAMPLES = [
+    "plain", "  lead and trail  ", "a   b", "tab\tinside", "line\nbreak", "\u2018smart\u2019 \u201cquotes\u201d", "<b>bold</b> & co", "]]> end", "&amp; &#65;",
+    "emoji \U0001F600 astral \U00010348", "\u05e9\u05dc\u05d5\u05dd rtl", "zero\u200bwidth", "nb\u00a0sp", "caf\u00e9 na\u00efve", "\u4e2d\u6587", "a  ${q1}  b", "  ", "",
+]
+
+
+def cell_cleaning_rule(ctx, prop, rid):
+    """Cleaning of cell text is exactly the documented one: smart quotes straightened; for the survey sheet only, outer
+    whitespace stripped and inner runs collapsed.  The cleaner is evaluated abstractly over an adversarial alphabet
+    (markup characters, entity-like text, astral / RTL / zero-width / combining characters) against that definition,
+    and the strip flag passed for each sheet is folded from the call sites."""
+    import re as _re
+    r = Rule(prop, rid, "cell cleaning is exactly smart-quote straightening (+ whitespace collapsing for the survey sheet only)", floor=6,
+             necessary="any other rewrite of cell text changes what the form author typed (a character dropped or replaced is not recovered from the XForm)")
+    ctv = ctx.func("pyxform.xls2json:clean_text_values", rid)
+    sq = {"\u2018": "'", "\u2019": "'", "\u201c": '"', "\u201d": '"'}
+    for strip in (True, False):
+        bad = []
+        for src in CLEAN_SAMPLES:
+            # definition, independent of the implementation: outer whitespace stripped, runs of SPACES collapsed to one
+            # (tabs and line breaks inside a cell are content: multi-line labels survive)
+            want = src
+            if strip:
+                want = _re.sub(r" {2,}", " ", src.strip())
+            for a, b in sq.items():
+                want = want.replace(a, b)
+            it = ctx.interp(rid, hooks={"fnname:validate_pyxform_reference_syntax": lambda i, a, k, n: None})
+            it.reset([])
+            try:
+                out = it.call_function(ctv, [], {"sheet_name": "survey", "data": [{"label": src}], "strip_whitespace": strip}, None, ctv.node)
+                got = out[0].get("label") if isinstance(out, list) and out and isinstance(out[0], dict) else out
+            except Raised as e:
+                got = f"raises {e.exc_name}"
+            if got != want:
+                bad.append((src, got, want))
+        r.check(not bad, f"clean_text_values[strip_whitespace={strip}]", f"{len(CLEAN_SAMPLES)} adversarial cells come out as defined", ctv.loc(),
+                why_fail="; ".join(f"{a!r} -> {b!r} (expected {c!r})" for a, b, c in bad[:2]))
+    w2j = ctx.func("pyxform.xls2json:workbook_to_json", rid)
+    for c in walk_own(w2j.node):
+        if isinstance(c, ast.Call) and call_name(c) == "clean_text_values":
+            okc, sn = const_str(ctx, w2j.module, kw(c, "sheet_name")) if kw(c, "sheet_name") is not None else (False, None)
+            flag = kw(c, "strip_whitespace")
+            okf, fv = (True, False) if flag is None else const_str(ctx, w2j.module, flag)
+            if not okc:
+                continue
+            r.check(okf and bool(fv) == (sn == "survey"), f"clean_text_values({sn}):strip flag",
+                    "inner whitespace is collapsed for survey cells only; settings, choices, external_choices and entities cells are kept verbatim", w2j.loc(c),
+                    why_fail=f"strip_whitespace={ast.unparse(flag) if flag is not None else 'default False'}")
+    return r
+
+
 def run(ctx):
     repo = ctx.repo
     rules = []
@@ -248,6 +299,7 @@ def run(ctx):
     out = it.call_function(dt, [[{"type": "image"}, {"type": "text"}, {}]], {}, None, dt.node)
     r4.check(out == [{"type": "photo"}, {"type": "text"}, {}], "dealias_types", "type aliases are replaced, other rows untouched", dt.loc(), why_fail=repr(out))
     rules.append(r4)
+    rules.append(cell_cleaning_rule(ctx, "C13", "C13.R6"))
 
     # ------------------------------------------------------------------ R5
     r5 = Rule("C13", "C13.R5", "blank rows keep numbering: rows are numbered by sheet position and blank rows are skipped, not removed", floor=4,
